@@ -24,12 +24,25 @@ SRC = {
     "fc": 'from inline_snapshot import snapshot, outsource\n\n\ndef test_c():\n    assert outsource(b"payload C", suffix=".png") == snapshot()\n    assert {"k": 1} == snapshot({"k": 2})\n',
 }
 UNCLEAN = {k: v.replace("assert ", "assert  ", 1) for k, v in SRC.items()}     # not formatter-clean
+# scenario option "enc": the middle file declares latin-1 (PEP 263), holds latin-1 text, and its new value has a
+# character that latin-1 cannot represent - writing it needs no injected fault to go wrong
+ENC_FB = ('# -*- coding: latin-1 -*-\nfrom inline_snapshot import snapshot\n\n# caf\xe9\n\ndef test_b():\n'
+          '    assert  [1, 2, 3] == snapshot([1, 5])\n    assert "x" + chr(8364) == snapshot()\n')
 
 
-def make_project(mode: str, clean: bool, trim: bool) -> Path:
+def read(path) -> str:
+    from . import srcio
+    try:
+        return srcio.read_source(path)
+    except (UnicodeDecodeError, LookupError):
+        return Path(path).read_bytes().decode("latin-1")
+
+
+def make_project(mode: str, clean: bool, trim: bool, enc: bool = False) -> Path:
+    from . import srcio
     d = Path(tempfile.mkdtemp(prefix="verif_flt_"))
     for f in FILES:
-        (d / NAMES[f]).write_text((SRC if clean else UNCLEAN)[f])
+        srcio.write_source(d / NAMES[f], ENC_FB if (enc and f == "fb") else (SRC if clean else UNCLEAN)[f])
     pp = ["[tool.inline-snapshot]"]
     if mode == "cmd":
         pp.append('format-command = "cat"')
@@ -125,14 +138,14 @@ def run_plan(args):
     """one faulted run of a scenario; returns the trace for TLC plus the property-level verdicts"""
     scen, plan, baseline_new = args
     mode, clean, trim = scen["mode"], scen["clean"], scen["trim"]
-    proj = make_project(mode, clean, trim)
+    proj = make_project(mode, clean, trim, scen.get("enc", False))
     log = tempfile.mktemp(prefix="verif_fltlog_")
     try:
-        old = {f: (proj / NAMES[f]).read_text() for f in FILES}
+        old = {f: read(proj / NAMES[f]) for f in FILES}
         r = session(proj, scen["flags"], plan, log)
         evs = read_log(log)
         popped = next((e.get("popped") for e in evs if e["ev"] == "unconfigure"), None)
-        now = {f: (proj / NAMES[f]).read_text() for f in FILES}
+        now = {f: read(proj / NAMES[f]) for f in FILES}
         cls = {f: classify(now[f], old[f], baseline_new[f]) for f in FILES}
         store_before = externals_state(proj)
         # the next session start prunes the unreferenced externals
@@ -178,19 +191,32 @@ def run_plan(args):
 
 
 def baseline(scen):
-    proj = make_project(scen["mode"], scen["clean"], scen["trim"])
+    proj = make_project(scen["mode"], scen["clean"], scen["trim"], scen.get("enc", False))
     log = tempfile.mktemp(prefix="verif_fltlog_")
     try:
-        old = {f: (proj / NAMES[f]).read_text() for f in FILES}
+        old = {f: read(proj / NAMES[f]) for f in FILES}
         r = session(proj, scen["flags"], None, log)
         evs = [e for e in read_log(log) if e["n"] > 0]
         new = {}
+        problems = []
         for f in FILES:
-            t = (proj / NAMES[f]).read_text()
-            if t == old[f]:
-                raise RuntimeError("baseline run did not change %s:\n%s\n%s" % (f, r["stdout"][-2000:], r["stderr"][-500:]))
-            new[f] = ast.dump(ast.parse(t))
-        return evs, new
+            t = read(proj / NAMES[f])
+            # the fault-free run is the oracle for "complete new content": it must itself be complete - every
+            # snapshot() filled, the file parses and is not shorter than before
+            try:
+                tree = ast.parse(t)
+                empty = [n for n in ast.walk(tree) if isinstance(n, ast.Call) and getattr(n.func, "id", "") == "snapshot" and not n.args]
+                fixed = "snapshot([1, 5])" not in t and '{"k": 2}' not in t
+                ok = t != old[f] and not empty and fixed and len(t) >= len(old[f]) - 2
+            except SyntaxError:
+                ok = False
+            if not ok:
+                problems.append({"clause": "atomic", "file": f, "class": "trunc" if t == "" else "incomplete-without-fault",
+                                 "first_lines": t[:200], "stdout": r["stdout"][-1500:]})
+                new[f] = "<no complete content observed>"
+            else:
+                new[f] = ast.dump(tree)
+        return evs, new, problems
     finally:
         shutil.rmtree(proj, ignore_errors=True)
         if os.path.exists(log):
